@@ -184,7 +184,15 @@ def check_tree(spec, tier, seed):
         pass
     except Exception as e:
         return viol(f"find_resource() of a stranger: {type(e).__name__}", "find_stranger")
-    for a in range(1 << spec["aw"]):
+    if spec.get("huge"):
+        # address spaces far beyond enumeration: every boundary of every reported range, its neighbours, and the ends
+        probe = {0, (1 << spec["aw"]) - 1}
+        for r in expected:
+            probe |= {r["start"] - 1, r["start"], r["start"] + 1, r["end"] - 1, r["end"], (r["start"] + r["end"]) // 2}
+        addresses = sorted(a for a in probe if 0 <= a < (1 << spec["aw"]))
+    else:
+        addresses = range(1 << spec["aw"])
+    for a in addresses:
         evals += 1
         want = None
         for r in expected:
@@ -282,6 +290,14 @@ def configs(tier):
         k = repr(c)
         if k not in seen:
             seen.add(k); keep.append(c)
+    # address spaces beyond 2**53 (where floats stop being exact): resources at odd addresses high up in a window
+    big = 1 << 54
+    for kind, rdw, cdw, cal, caw in (("sparse", 64, 8, 0, 55), ("same", 8, 8, 0, 55), ("dense", 64, 32, 1, 56), ("sparse", 32, 16, 0, 57)):
+        leaf = dict(aw=caw, dw=cdw, al=cal, items=[("res", 3, None), ("res", 5 if kind != "dense" else 6, big + (9 if kind != "dense" else 10)),
+                                                   ("res", 1, (1 << caw) - (1 << cal))])
+        keep.append(dict(aw=60, dw=rdw, al=0, huge=True, items=[("res", 1, None), ("win", leaf, kind, "w", None), ("res", 2, None)]))
+        mid = dict(aw=58, dw=rdw, al=0, items=[("win", leaf, kind, None, None), ("res", 1, None)])
+        keep.append(dict(aw=60, dw=rdw, al=0, huge=True, items=[("win", mid, "same", "m", None)]))
     # the same trees with refused calls between the accepted ones, and with resources that have value equality
     step = 5 if quick else 2
     keep += [dict(c, refusals=True) for c in keep[::step]] + [dict(c, eqres=True) for c in keep[1::step]]
